@@ -114,23 +114,24 @@ structure LoopOut (α : Type) where
   err : Bool        -- rows.Err() ≠ nil after the loop
   rest : List Ev
 
-/-- `for initialized || rows.Next() { elem := reflect.New(T); scanIntoStruct; append }` -/
-def loopStructs (sch : Schema) (cols : List String) : List Ev → List Rec → Nat → LoopOut (List Rec)
+/-- the common shape of the three `for initialized || rows.Next() { db.RowsAffected++; <body> }` loops of
+    `Scan`: `body` folds the current row into the destination; a failing Next ends the loop with `rows.Err()` set -/
+def loopG {α : Type} (body : α → SRow → α) : List Ev → α → Nat → LoopOut α
   | [], acc, ra => ⟨acc, ra, false, []⟩
   | .fail :: _, acc, ra => ⟨acc, ra, true, [.fail]⟩
-  | .row r :: rest, acc, ra => loopStructs sch cols rest (acc ++ [scanIntoStruct sch (zeroRec sch) cols r]) (ra + 1)
+  | .row r :: rest, acc, ra => loopG body rest (body acc r) (ra + 1)
 
-/-- `for initialized || rows.Next() { mapValue := map{}; scanIntoMap; *dest = append(*dest, mapValue) }` -/
-def loopMaps (cols : List String) : List Ev → List Rec → Nat → LoopOut (List Rec)
-  | [], acc, ra => ⟨acc, ra, false, []⟩
-  | .fail :: _, acc, ra => ⟨acc, ra, true, [.fail]⟩
-  | .row r :: rest, acc, ra => loopMaps cols rest (acc ++ [scanIntoMap [] cols r]) (ra + 1)
+/-- slice of structs: `elem := reflect.New(T); scanIntoStruct(elem); reflectValue = reflect.Append(reflectValue, elem)` -/
+def loopStructs (sch : Schema) (cols : List String) : List Ev → List Rec → Nat → LoopOut (List Rec) :=
+  loopG (fun acc r => acc ++ [scanIntoStruct sch (zeroRec sch) cols r])
 
-/-- `for initialized || rows.Next() { rows.Scan(dest) }` -/
-def loopPrim : List Ev → Cell → Nat → LoopOut Cell
-  | [], v, ra => ⟨v, ra, false, []⟩
-  | .fail :: _, v, ra => ⟨v, ra, true, [.fail]⟩
-  | .row r :: rest, _, ra => loopPrim rest (r.headD none) (ra + 1)
+/-- slice of maps: `mapValue := map[string]interface{}{}; scanIntoMap(mapValue); *dest = append(*dest, mapValue)` -/
+def loopMaps (cols : List String) : List Ev → List Rec → Nat → LoopOut (List Rec) :=
+  loopG (fun acc r => acc ++ [scanIntoMap [] cols r])
+
+/-- primitive: `rows.Scan(dest)` — every row overwrites the one variable -/
+def loopPrim : List Ev → Cell → Nat → LoopOut Cell :=
+  loopG (fun _ r => r.headD none)
 
 structure ScanOut where
   dest : Dest
